@@ -13,7 +13,7 @@ LEVEL_TEXT = ("Deductive: CovMonitor (coverage.py) is verified for all inputs (a
               "(subset, span coverage <= k, maximality), and whole --ped runs in which the reads handed to the solver are recounted per family.")
 LEVEL_NOTE = "Proved: coverage.py and the budget lemma only. Trusted: z3/cvc5, vcgen semantics. readselect.pyx obligations O1-O4 of DESIGN.md are not discharged."
 TECHNIQUE = "contract-based deductive verification of CovMonitor + budget lemma (vcgen, z3) + bounded runtime contract on the compiled readselection and on run_whatshap"
-D_MODULES = ["contracts.coverage_py"]
+D_MODULES = ["contracts.coverage_py", "contracts.priorityqueue_pyx", "contracts.readselect_pyx"]
 EXPLANATION = LEVEL_TEXT
 TRUSTED_BASE = ["z3/cvc5", "vcgen Python semantics (lists as arrays + length)"]
 ASSUMPTIONS = ["readselect.pyx is not under deductive contract (bounded only)"]
